@@ -47,6 +47,9 @@ var faultCatalogue = []faultSpec{
 	{Name: "cmp-string-int", Cite: "must", BoolValued: true, Expr: func() *dsl.Expr { return dsl.Bin("<", dsl.Str("a"), i(1)) }},
 	{Name: "cmp-bool-order", Cite: "must", BoolValued: true, Expr: func() *dsl.Expr { return dsl.Bin(">", dsl.Bool(true), dsl.Bool(false)) }},
 	{Name: "cmp-int-bool", Cite: "must", BoolValued: true, Expr: func() *dsl.Expr { return dsl.Bin("==", dsl.Var("W.N"), dsl.Var("W.B")) }},
+	// an interface-typed field is not a number, whatever it holds: comparing it with one is a comparison type fault
+	{Name: "cmp-interface-field-int", Cite: "must", BoolValued: true, Expr: func() *dsl.Expr { return dsl.Bin("<", dsl.Var("O.Any"), i(1)) }},
+	{Name: "cmp-int-nil-interface-field", Cite: "must", BoolValued: true, Expr: func() *dsl.Expr { return dsl.Bin(">=", i(2), dsl.Var("O.NilAny")) }},
 	{Name: "logic-int-and-bool", Cite: "must", BoolValued: true, Expr: func() *dsl.Expr { return dsl.Bin("&&", i(1), dsl.Bool(true)) }},
 	{Name: "logic-bool-or-string", Cite: "must", BoolValued: true, Expr: func() *dsl.Expr { return dsl.Bin("||", dsl.Bool(false), dsl.Str("x")) }},
 	{Name: "not-int", Cite: "may", BoolValued: true, Expr: func() *dsl.Expr { return dsl.Not(i(5)) }},
@@ -470,8 +473,15 @@ type FObj struct {
 	V     int64
 	In    *FObj
 	NilIn *FObj
-	hid   int64 // unexported: readable by name through reflection, but its value cannot leave the rule
+	hid   int64  // unexported: readable by name through reflection, but its value cannot leave the rule
+	Pt    FPoint // a struct held by value, all fields zero
+	// interface-typed fields: one holding an integer, one nil
+	Any    interface{}
+	NilAny interface{}
 }
+
+// FPoint is a plain value struct.
+type FPoint struct{ X, Y int64 }
 
 func (o *FObj) Get() int64        { return o.V }
 func (o *FObj) Add(a int64) int64 { o.V += a; return o.V }
@@ -491,7 +501,7 @@ func faultInject(l *obs.Log) map[string]interface{} {
 		"emptysl": []int64{}, "onesl": []int64{7},
 		"scalar": int64(9), "arrv": [3]int64{1, 2, 3}, "pint": &pi, "pstr": &ps,
 		"uz": uint64(0), "big": int64(50), "neg": int64(-3),
-		"O": &FObj{V: 1, In: &FObj{V: 2}, hid: 5},
+		"O":    &FObj{V: 1, In: &FObj{V: 2}, hid: 5},
 		"ok":   func(n int64) int64 { return n },
 		"two":  func(a, b int64) int64 { return a + b },
 		"boom": func() int64 { panic("injected function panic") },
